@@ -192,6 +192,15 @@ func init() {
 		st.assume(Gt(other, IntLit(0)))
 		return App(SReal, "to_real", r), true
 	})
+	// timestamppb.New(t): a fresh message denoting the instant t; (*Timestamp).AsTime gives it back
+	reg("google.golang.org/protobuf/types/known/timestamppb.New", nil, func(st *State, fr *Frame, call ssa.CallInstruction, a []SVal) (SVal, bool) {
+		r := st.allocRef()
+		st.assume(Eq(st.tsOf(r), st.scalar(a[0])))
+		return r, true
+	})
+	reg("(*google.golang.org/protobuf/types/known/timestamppb.Timestamp).AsTime", nil, func(st *State, fr *Frame, call ssa.CallInstruction, a []SVal) (SVal, bool) {
+		return st.tsOf(st.scalar(a[0])), true
+	})
 	reg("unicode.IsLetter", nil, func(st *State, fr *Frame, call ssa.CallInstruction, a []SVal) (SVal, bool) {
 		return App(SBool, st.declareFun("unicode_isletter", []Sort{SInt}, SBool), st.scalar(a[0])), true
 	})
@@ -358,6 +367,11 @@ func (st *State) strQuote(s *Term) *Term {
 // b64: standard base64 text of a byte slice, a function of the bytes (identified by backing array, offset, length)
 func (st *State) b64(sv *SliceV) *Term {
 	return App(SStr, st.declareFun("spec.b64", []Sort{SInt, SInt, SInt}, SStr), sv.Base, sv.Off, sv.Len)
+}
+
+// tsOf: the instant a *timestamppb.Timestamp denotes
+func (st *State) tsOf(p *Term) *Term {
+	return App(SInt, st.declareFun("spec.ts_of", []Sort{SInt}, SInt), p)
 }
 
 func (st *State) reMatches(re, s *Term) *Term {
@@ -701,6 +715,9 @@ func (st *State) specBuiltin(env *Env, e *Expr) (SVal, types.Type, bool) {
 		a, _ := st.elab(env, e.Args[0])
 		b, _ := st.elab(env, e.Args[1])
 		return st.strConcat(st.scalar(a), st.scalar(b)), tString, true
+	case "astime":
+		a, _ := st.elab(env, e.Args[0])
+		return st.tsOf(st.scalar(a)), tInt, true
 	case "asduration":
 		a, _ := st.elab(env, e.Args[0])
 		p := st.scalar(a)
